@@ -6,6 +6,7 @@
 
   ctxsim <main 0|1> <fl0> <O_NONBLOCK> <sig0 d|i|u<k>> <wake0 N|<fd>> <token>*
     tokens: (I<sigint_event><disable_start_stop>  (F<hide>  (C<hide><keep>  (B  (N  (M<k>  )   context enter / leave
+            q4 (paste: burst above the threshold, the loop's top-up read finds nothing)  q5 (ready but empty read: EOF)
             q0 q1 q2 q3 (request: returnsNoRead, returnsAfterRead, raisesAfterRead, keyboardInterrupt)
             r (render)  R<k> (render whose (k+1)-th write raises)  t (event trigger)  T (threadsafe trigger)  ! (raise)
             et<k> ef<bit> es<handler>  (the environment changes tty attributes / status flags / SIGINT handler)
@@ -50,6 +51,7 @@ def decHandler (s : String) : Option Handler :=
 def decOp (tok : String) : Option Op :=
   if tok == "q0" then some (.request .returnsNoRead) else if tok == "q1" then some (.request .returnsAfterRead)
   else if tok == "q2" then some (.request .raisesAfterRead) else if tok == "q3" then some (.request .keyboardInterrupt)
+  else if tok == "q4" then some (.request .returnsAfterPaste) else if tok == "q5" then some (.request .emptyRead)
   else if tok == "r" then some .render else if tok == "t" then some .mkTrigger
   else if tok == "T" then some .mkThreadsafeTrigger
   else if tok.startsWith "R" then (tok.drop 1).toString.toNat?.map Op.renderCrash
